@@ -11,8 +11,9 @@ S="$SRC/_seed/$X"
 mkdir -p "$OUT"
 cp "$S/patch.diff" "$OUT/patch.diff"
 cp "$S/meta.json" "$OUT/meta.agent.json" 2>/dev/null
-DEMO=$(ls "$S"/demo*.rs 2>/dev/null | head -1)
-[ -n "$DEMO" ] && cp "$DEMO" "$OUT/demo.rs"
+rm -f "$OUT/demo.rs"
+# a script-style demonstration wins; otherwise the test file `demo.rs`
+if [ ! -f "$S/demo.sh" ] && [ -f "$S/demo.rs" ]; then cp "$S/demo.rs" "$OUT/demo.rs"; fi
 WT=/tmp/seedeval-$ID-$X
 rm -rf "$WT"; git -C /repo worktree prune; git -C /repo worktree add -q "$WT" HEAD || exit 3
 export CARGO_TARGET_DIR=/tmp/seedeval-target CARGO_NET_OFFLINE=true
